@@ -238,15 +238,18 @@ class MustWalker(Walker):
     pred(node) is evaluated on every sub-node of each simple statement / header expression.
     inline(call) may return a list of statements (a resolved callee body) to be walked in place."""
 
-    def __init__(self, pred, env=None, nonempty_pred=None, inline=None, depth=3):
+    def __init__(self, pred, env=None, nonempty_pred=None, inline=None, depth=3, guard_fn=None):
         super().__init__()
         self.pred, self.env, self.nonempty_pred, self.inline, self.depth = pred, env or {}, nonempty_pred, inline, depth
+        self.guard_fn = guard_fn
         self._d = 0
 
     def join(self, a, b):
         return a and b
 
     def guard(self, test, state):
+        if self.guard_fn is not None:
+            return self.guard_fn(test)
         return const_guard(test, self.env)
 
     def nonempty(self, it, state):
@@ -264,7 +267,7 @@ class MustWalker(Walker):
                 body = self.inline(sub)
                 if body is not None:
                     self._d += 1
-                    w = MustWalker(self.pred, self.env if not isinstance(body, tuple) else body[1], self.nonempty_pred, self.inline, self.depth)
+                    w = MustWalker(self.pred, self.env if not isinstance(body, tuple) else body[1], self.nonempty_pred, self.inline, self.depth, self.guard_fn)
                     w._d = self._d
                     exits = w.run(body if not isinstance(body, tuple) else body[0], False)
                     self._d -= 1
@@ -285,9 +288,9 @@ def walk_no_nested(node):
             stack.append(c)
 
 
-def must_on_all_paths(body, pred, env=None, nonempty_pred=None, inline=None):
+def must_on_all_paths(body, pred, env=None, nonempty_pred=None, inline=None, guard_fn=None):
     """(ok, offending_exits): does every non-raising path through body meet an event satisfying pred?"""
-    w = MustWalker(pred, env, nonempty_pred, inline)
+    w = MustWalker(pred, env, nonempty_pred, inline, guard_fn=guard_fn)
     exits = w.run(body, False)
     bad = [e for e in exits if not e.state]
     return (not bad), bad
@@ -344,3 +347,65 @@ def write_implies_event(body, write_pred, event_pred, env=None, inline=None):
     exits = w.run(body, frozenset({(False, False)}))
     bad = [e for e in exits if (True, False) in e.state]
     return (not bad), bad
+
+
+def sign_given_N(p, nkey="N"):
+    """Sign of an affine polynomial a*N + b under N >= 1: +1, -1, 0 (identically zero) or None (unknown)."""
+    if p.is_zero():
+        return 0
+    if p.is_const():
+        c = p.const_value()
+        return 1 if c > 0 else -1
+    lin = p.linear_in([nkey])
+    if lin is None:
+        return None
+    coefs, rest = lin
+    if not rest.is_const() or nkey not in coefs or not coefs[nkey].is_const():
+        return None
+    a, b = coefs[nkey].const_value(), rest.const_value()
+    # value at N=1 is a+b, slope a
+    if a >= 0 and a + b > 0:
+        return 1
+    if a <= 0 and a + b < 0:
+        return -1
+    return None
+
+
+def poly_guard(test, norm, truth=None, nkey="N"):
+    """Three-valued evaluation of a test whose comparisons are between affine forms in N (N >= 1).
+
+    norm  : Norm whose bindings give the symbolic values (e.g. k := N-1)
+    truth : {canonical key: bool} for opaque boolean atoms (e.g. 'self.localize_T')"""
+    truth = truth or {}
+
+    def ev(n):
+        k = norm.key(n)
+        if k in truth:
+            return truth[k]
+        if isinstance(n, ast.BoolOp):
+            vals = [ev(v) for v in n.values]
+            if isinstance(n.op, ast.And):
+                if any(v is False for v in vals):
+                    return False
+                return True if all(v is True for v in vals) else None
+            if any(v is True for v in vals):
+                return True
+            return False if all(v is False for v in vals) else None
+        if isinstance(n, ast.UnaryOp) and isinstance(n.op, ast.Not):
+            v = ev(n.operand)
+            return None if v is None else (not v)
+        if isinstance(n, ast.Compare) and len(n.ops) == 1:
+            d = norm.poly(n.left) - norm.poly(n.comparators[0])
+            s = sign_given_N(d, nkey)
+            if s is None:
+                return None
+            op = n.ops[0]
+            if isinstance(op, ast.Eq): return s == 0
+            if isinstance(op, ast.NotEq): return s != 0
+            if isinstance(op, ast.Lt): return s < 0
+            if isinstance(op, ast.LtE): return s <= 0
+            if isinstance(op, ast.Gt): return s > 0
+            if isinstance(op, ast.GtE): return s >= 0
+        return None
+
+    return ev(test)
